@@ -750,41 +750,44 @@ class FortranReaderBase:
             pass
         if self.isclosed:
             return None
-        try:
-            line = next(self.source)
-        except StopIteration:
-            self.isclosed = True
-            self.close_source()
-            return None
-        self.linecount += 1
+        # Loop (rather than recurse) over the lines that are skipped: a long
+        # run of ignored comment or empty lines must not exhaust the stack.
+        while True:
+            try:
+                line = next(self.source)
+            except StopIteration:
+                self.isclosed = True
+                self.close_source()
+                return None
+            self.linecount += 1
 
-        # expand tabs, replace special symbols, get rid of nl characters
-        line = line.expandtabs().replace("\xa0", " ").rstrip()
-        if self._include_omp_conditional_lines and self._format.is_fixed:
-            # Fixed-format line sentinels can be handled here, since a
-            # continuation line does not depend on the previous line. The
-            # regular expression checks for both an initial or a continuation
-            # line, and if it is found, the sentinel is replaced with two
-            # spaces:
-            line, _ = self.replace_omp_sentinels(line, self._re_omp_sentinel)
+            # expand tabs, replace special symbols, get rid of nl characters
+            line = line.expandtabs().replace("\xa0", " ").rstrip()
+            if self._include_omp_conditional_lines and self._format.is_fixed:
+                # Fixed-format line sentinels can be handled here, since a
+                # continuation line does not depend on the previous line. The
+                # regular expression checks for both an initial or a
+                # continuation line, and if it is found, the sentinel is
+                # replaced with two spaces:
+                line, _ = self.replace_omp_sentinels(line, self._re_omp_sentinel)
 
-        self.source_lines.append(line)
+            self.source_lines.append(line)
 
-        if ignore_comments and (self._format.is_fixed or self._format.is_f77):
-            # Check for a fixed-format comment. If the current line *is*
-            # a comment and we are ignoring them, then recursively call this
-            # routine again to get the next source line.
-            if _is_fix_comment(
-                line,
-                isstrict=self._format.is_strict,
-                f2py_enabled=self._format.f2py_enabled,
-            ):
-                return self.get_single_line(ignore_empty, ignore_comments)
+            if ignore_comments and (self._format.is_fixed or self._format.is_f77):
+                # Check for a fixed-format comment. If the current line *is*
+                # a comment and we are ignoring them, then get the next
+                # source line.
+                if _is_fix_comment(
+                    line,
+                    isstrict=self._format.is_strict,
+                    f2py_enabled=self._format.f2py_enabled,
+                ):
+                    continue
 
-        if ignore_empty and not line:
-            return self.get_single_line(ignore_empty, ignore_comments)
+            if ignore_empty and not line:
+                continue
 
-        return line
+            return line
 
     def get_next_line(self, ignore_empty=False, ignore_comments=None):
         """Return next non-empty line from FILO line buffer or from source.
